@@ -216,7 +216,14 @@ def exec_check(res, a, desc, rng, case, jac=False):
             elif method == "cusparse":
                 exact = exact_cv
                 rows = [list(c0[0]) + list(c0[1]) + list(c0[2]) + list(c0[3]) + list(c1[3]) for c0, c1 in zip(cases[0::2], cases[1::2])]
-                out, diag = ol.run_fexjac(exe, rows, per_case=2)
+                out, diag = ol.run_fexjac(exe, rows, per_case=2, threads=1)
+                if out is not None:
+                    # the same batches with one thread per system (the package's own launch policy): the same numbers
+                    out2, diag2 = ol.run_fexjac(exe, rows, per_case=2, threads=2)
+                    if out2 is None or [(o["F"], o["J"]) for o in out2] != [(o["F"], o["J"]) for o in out]:
+                        res.violation("oracle", f"{where}: the kernels compute other values with one thread per system than with one thread for the whole batch "
+                                      f"({diag2 or 'first difference in system ' + str(next(i for i, (u, v) in enumerate(zip(out, out2)) if (u['F'], u['J']) != (v['F'], v['J'])) % 2)})", case)
+                        return
             else:
                 exact = exact_cv
                 out, diag = ol.run_fexjac(exe, [[x for part in c for x in part] for c in cases])
